@@ -55,7 +55,7 @@ type lexReg struct {
 }
 
 func ruleLex(c *Ctx) {
-	c.R.Rule("LEX", 30, "lexer: fixed-string rules never carry identifier-like text (whole-word rules are used instead); both operator lists are sorted longest-first before registration; built-in . and ? refuse when another operator character follows; token positions are advanced rune by rune over exactly the matched runes; every match function returns a rune count; registration order puts primitive operators before user operators, words before the identifier rule and float patterns before the integer pattern; every pattern is anchored; no fixed-string rule registered ahead of the operators can swallow the first character of a registrable operator")
+	c.R.Rule("LEX", 25, "lexer: fixed-string rules never carry identifier-like text (whole-word rules are used instead); both operator lists are sorted longest-first before registration; built-in . and ? refuse when another operator character follows; token positions are advanced rune by rune over exactly the matched runes; every match function returns a rune count; registration order puts primitive operators before user operators, words before the identifier rule and float patterns before the integer pattern; every pattern is anchored; no fixed-string rule registered ahead of the operators can swallow the first character of a registrable operator")
 	nl := c.FuncDecl("parser/lexer", "newLexicon")
 	if nl == nil {
 		c.R.Anchor("parser/lexer.newLexicon")
@@ -403,7 +403,7 @@ func ruleLex(c *Ctx) {
 // ---------- PARSE ----------
 
 func ruleParse(c *Ctx) {
-	c.R.Rule("PARSE", 30, "parser: each fixity is wired to its own handler; left/non-associative/prefix handlers parse their right operand with exactly bp and right-associative ones with the next lower representable power (BP.Pred = Nextafter32 towards -Inf); the Pratt loop binds while lbp > rbp (strict); the non-associativity check is applied to every node a led handler produces; node spans run from the first operand/token to the last consumed token and pos.Range returns start-of-first..end-of-second; ? . ( [ are registered after the user operators")
+	c.R.Rule("PARSE", 25, "parser: each fixity is wired to its own handler; left/non-associative/prefix handlers parse their right operand with exactly bp and right-associative ones with the next lower representable power (BP.Pred = Nextafter32 towards -Inf); the Pratt loop binds while lbp > rbp (strict); the non-associativity check is applied to every node a led handler produces; node spans run from the first operand/token to the last consumed token and pos.Range returns start-of-first..end-of-second; ? . ( [ are registered after the user operators")
 	ng := c.FuncDecl("parser", "newGrammar")
 	if ng == nil {
 		c.R.Anchor("parser.newGrammar")
@@ -847,7 +847,7 @@ func (c *Ctx) allCallsDeepTo(n ast.Node, name string) []*ast.CallExpr {
 // ---------- DS ----------
 
 func ruleDesugar(c *Ctx) {
-	c.R.Rule("DS", 30, "desugaring: every sugar case returns a call node; every sub-expression handed to a node factory went through Desugar (or is a fresh identifier); nodes the checker annotates are always re-allocated and the input tree is never written; operands keep source order ([LHS,RHS], [Left,Mid,Right], receiver then arguments); the operator name / the lazy if / the method name becomes the callee; the result of desugaring a callee is never itself a redex; CompileExpr translates, checks and compiles the same tree")
+	c.R.Rule("DS", 22, "desugaring: every sugar case returns a call node; every sub-expression handed to a node factory went through Desugar (or is a fresh identifier); nodes the checker annotates are always re-allocated and the input tree is never written; operands keep source order ([LHS,RHS], [Left,Mid,Right], receiver then arguments); the operator name / the lazy if / the method name becomes the callee; the result of desugaring a callee is never itself a redex; CompileExpr translates, checks and compiles the same tree")
 	fd := c.FuncDecl("trans", "Desugar")
 	if fd == nil {
 		c.R.Anchor("trans.Desugar")
